@@ -17,4 +17,4 @@ run_one() {
   rm -rf $W
 }
 export -f run_one
-ls seeded | grep -E -- "${SEEDS:-.}" | xargs -P $JOBS -I{} bash -c 'run_one {}'
+ls -d seeded/*/ | xargs -n1 basename | grep -E -- "${SEEDS:-.}" | xargs -P $JOBS -I{} bash -c 'run_one {}'
